@@ -217,7 +217,9 @@ class BanditManager:
         files_list = set()
         excluded_files = set()
 
-        excluded_path_globs = self.b_conf.get_option("exclude_dirs") or []
+        # a copy: the command line exclusions appended below are not part of
+        # the configuration (which other managers may share)
+        excluded_path_globs = list(self.b_conf.get_option("exclude_dirs") or [])
         included_globs = self.b_conf.get_option("include") or ["*.py"]
 
         # if there are command line provided exclusions add them to the list
